@@ -417,15 +417,17 @@ def check_prefix_text(job):
         if r["status"] != 0:
             msgs.append(f"error: run failed: {r['exc'] or r['stdout'][-200:]}")
         else:
-            lines = [l for l in box.files("work/out")["a.rst"].split("\n") if l.strip()]
-            index = [l for l in box.files("work/out")["index.rst"].split("\n") if l.strip()]
-            if lines[1] != prefix + ".a" or f".. module:: {prefix}.a" not in lines:
+            lines = [l for l in box.page("work/out", "a.rst").split("\n") if l.strip()]
+            index = [l for l in box.page("work/out", "index.rst").split("\n") if l.strip()]
+            if len(lines) < 2 or len(index) < 2:
+                msgs.append(f"output-location: the run succeeded but work/out holds no a.rst/index.rst (found: {sorted(k for k in box.snapshot() if k.endswith('.rst'))[:4]})")
+            elif lines[1] != prefix + ".a" or f".. module:: {prefix}.a" not in lines:
                 msgs.append(f"prefix-text: rst.prefix {prefix!r} set by {src}: the page of a.cmake is titled {lines[1]!r}, expected {prefix + '.a'!r}")
-            if index[1] != prefix:
+            elif index[1] != prefix:
                 msgs.append(f"prefix-text: rst.prefix {prefix!r} set by {src}: the index is titled {index[1]!r}")
     finally:
         box.cleanup()
-    return {"viol": msgs[:2], "obs": common.digest([job, msgs]), "n": 1, "nt": common.digest(job), "cls": "prefix-text" if msgs else None,
+    return {"viol": msgs[:2], "obs": common.digest([job, msgs]), "n": 1, "nt": common.digest(job), "cls": msgs[0].split(":")[0] if msgs else None,
             "case": {"prefix_text": list(job)}}
 
 
